@@ -43,7 +43,7 @@ def nwords(k, maxlen, minlen=0):
     return sum(k ** n for n in range(minlen, maxlen + 1))
 
 
-SET_ALPHA = {"str": ("a", "b", "c"), "int": (1, 2, 3)}
+SET_ALPHA = {"str": ("a", "b", "c"), "int": (1, 2, 3), "mix": ("", "a", 0, 1)}      # "" and 0 have the same hash; mixed lists of strings and ints
 NORM_ALPHA = ("a", "A", " ", "\t", "É")
 GLOB_PAT_ALPHA = ("a", "b", "*", "?", "[", "]", "!")
 GLOB_TEXT_ALPHA = ("a", "b")
@@ -59,7 +59,7 @@ CIDR_BASES_MORE = ("127.0.0.1", "100.64.0.0", "169.254.169.254", "224.0.0.0")
 CIDR_MALFORMED = ("", "junk", "localhost", "10.0.0", "10.0.0.0.0", "256.0.0.0", "10.0.0.0/33", "10.0.0.0/-1", "10.0.0.0/",
                   "/8", "10.0.0.0/8/8", " 10.0.0.0/8", "10.0.0.0 /8", "10.0.0.0/x", "junk/8", "010.0.0.0/8")
 ARN_NAMES = c7nref.ARN_FIELD_NAMES + ("bogus",)
-ARN_MAXFIELDS = 7
+ARN_MAXFIELDS = 8
 VERSION_OPS = ("<", "<=", "==", "!=", ">=", ">")
 
 
@@ -260,9 +260,9 @@ def cardinality(family, tier):
     """Closed forms, independent of build_space()."""
     pp = P(tier)
     if family.startswith("setpair:"):
-        return nwords(3, pp["set_len"]) ** 2
+        return nwords(len(SET_ALPHA[family[8:]]), pp["set_len"]) ** 2
     if family.startswith("setone:"):
-        return nwords(3, pp["set_len"])
+        return nwords(len(SET_ALPHA[family[7:]]), pp["set_len"])
     if family == "normalize":
         return nwords(len(pp["norm_alpha"]), pp["norm_len"])
     if family == "glob":
@@ -303,7 +303,7 @@ VARIANTS = {
 }
 VARNAMES = {"setpair": ("la", "lb"), "setone": ("la",), "normalize": ("s",), "glob": ("t", "p"), "cidr": ("n", "x"), "size": ("n",),
             "version": ("va", "vb"), "tags": ("tags", "k"), "arn": ("arn", "f")}
-FAMILIES = ["setpair:str", "setpair:int", "setone:str", "setone:int", "normalize", "glob", "cidr", "size", "version", "tags", "arn"]
+FAMILIES = ["setpair:str", "setpair:int", "setpair:mix", "setone:str", "setone:int", "setone:mix", "normalize", "glob", "cidr", "size", "version", "tags", "arn"]
 
 
 def fam(family):
@@ -566,10 +566,12 @@ def helper_shard(task):
 # =================================================================================================
 # context histories
 # =================================================================================================
-HKINDS = ("ok", "celerr", "hostraise")
+HKINDS = ("ok", "celerr", "hostraise", "nested")
 HFILTERS = ("F1", "F2")
-HSYMBOLS = [(k, f) for k in HKINDS for f in HFILTERS]
-HEXPR = {"ok": "probe() == 1", "celerr": "probe() / 0 == 1", "hostraise": "boom() == 1"}
+# nested: a host function runs a whole other evaluation (its own filter: the decoy) in the middle of this one; the rest of
+# this evaluation must still see this evaluation's filter
+HSYMBOLS = [(k, f) for k in HKINDS[:3] for f in HFILTERS] + [("nested", "F1")]
+HEXPR = {"ok": "probe() == 1", "celerr": "probe() / 0 == 1", "hostraise": "boom() == 1", "nested": "nest() == 1 && probe() == 1"}
 # how the filter is installed for an evaluation
 #   tests     : with C7NContext(filter=<decoy>): prog.evaluate(act, filter=F)     (tests/test_c7nlib.py::test_C7N_interpreted_runner)
 #   runner    : prog.evaluate(act, filter=F)                                      (C7N_Interpreted_Runner alone)
@@ -607,10 +609,14 @@ class Hist:
             _SEEN.append(abst(c7nlib.C7N))
             raise RuntimeError("host function failure")
 
+        def nest():
+            inner = self.progs["c7n", "ok"].evaluate({}, filter=self.decoy)     # its probe() records what the inner evaluation sees
+            return ct.IntType(1) if inner else ct.IntType(0)
+
         functions = dict(c7nlib.FUNCTIONS)
-        functions.update({"probe": probe, "boom": boom})
+        functions.update({"probe": probe, "boom": boom, "nest": nest})
         decls = dict(c7nlib.DECLARATIONS)
-        decls.update({"probe": ct.FunctionType, "boom": ct.FunctionType})
+        decls.update({"probe": ct.FunctionType, "boom": ct.FunctionType, "nest": ct.FunctionType})
         self.progs = {}
         for rname, rclass in (("c7n", c7nlib.C7N_Interpreted_Runner), ("plain", self.celpy.InterpretedRunner)):
             env = self.celpy.Environment(annotations=decls, runner_class=rclass)
@@ -740,10 +746,14 @@ def check_trace(mode, hist, trace):
             continue
         if before != m_before:
             div = (i, kind, f"stale-before:{rel(before, fname)}")
-        elif len(seen) != 1:
+        elif len(seen) != (2 if kind == "nested" else 1):
             div = (i, kind, f"probe-called-{len(seen)}-times")
-        elif mode != "with-only" and seen[0] != m_during:  # with-only: what the functions see is not stated (UNSPEC)
-            div = (i, kind, f"during-saw:{rel(seen[0], fname)}")
+        elif kind == "nested" and seen[0] != "ctx(decoy)":
+            div = (i, kind, f"inner-evaluation-saw:{rel(seen[0], fname)}")
+        elif seen[-1] != m_during:
+            # (mode with-only is the usage the c7nlib module docstring shows: the filter installed by the caller's
+            # ``with`` block is the one "installed for the evaluation")
+            div = (i, kind, f"during-saw:{rel(seen[-1], fname)}" + ("-after-a-nested-evaluation" if kind == "nested" else ""))
         elif out != m_out:
             div = (i, kind, f"outcome:{out}-instead-of-{m_out}")
         elif inner == m_during:
@@ -776,10 +786,6 @@ def _judge_history(part, mode, hist, trace, confirmed, count=True):
         part.extra["histories"] += 1
         for point, st in states:
             part.extra[f"state|{point}|{st}"] += 1
-        if mode == "with-only":
-            part.extra["with_only_visibility_unspec_events"] += len(hist)
-            for step in trace["steps"]:
-                part.extra[f"with_only_saw|{'/'.join(step[1])}"] += 1
         part.outcome(f"history:{mode}:" + "+".join(sorted({s[4] for s in trace["steps"]})))
     if div is None:
         part.extra["traces_validated_against_impl" if count else "fresh_fork_histories_validated"] += 1
@@ -888,17 +894,17 @@ def run(ctx):
         "form, all under C7N_Interpreted_Runner with FUNCTIONS inside a C7NContext); a case is (helper, path, arguments), distinct by construction; "
         "non-trivial iff the reference is not UNSPEC (malformed glob brackets, host bits set / malformed / non-network CIDR texts, a bad date in a "
         "marked value, ARN shapes outside the documented two, unknown field names are UNSPEC: counted, outcome recorded, not compared). "
-        "context histories: every sequence of length 1..%d over {ok, celerr, hostraise} x {F1, F2} under each of four ways of installing the filter "
+        "context histories: every sequence of length 1..%d over {ok, celerr, hostraise} x {F1, F2} plus one nested evaluation (a host function runs another evaluation with its own filter, then this one goes on) under each of four ways of installing the filter "
         "(tests: outer C7NContext + evaluate(filter=F) as tests/test_c7nlib.py does; runner: evaluate(filter=F) alone; with-only: C7NContext(filter=F) around "
         "C7N_Interpreted_Runner.evaluate(activation); plain: C7NContext(filter=F) around InterpretedRunner.evaluate); histories run back to back in forked "
         "chain processes that only go on while the context state *read* after a history is the pristine one (nothing is ever reset; any other state ends the "
         "chain and the next history starts in a new fork), and every history of length <= %d additionally runs in a fresh fork of its own; every history is "
-        "non-trivial (state before, cleared-after and outcome are compared at every step; filter visibility is compared except in mode with-only where it is UNSPEC)"
+        "non-trivial (state before, cleared-after and outcome are compared at every step; filter visibility are compared at every step, in mode with-only too: it is the usage the c7nlib module docstring shows)"
         % (pp["set_len"], pp["norm_len"], "".join(pp["norm_alpha"]), pp["glob_plen"], "".join(GLOB_PAT_ALPHA), pp["glob_tlen"],
            len(cidr_nets(pp["cidr_bases"])), len(pp["cidr_bases"]), ", last sub-network at every longer prefix, sibling networks" if pp["cidr_extra"] else "",
            pp["ver_len"], list(VER_ALPHA), pp["tag_len"], len(TAG_VALUES), ARN_MAXFIELDS, pp["hist_len"], fresh_bound(tier)))
     ctx.assumptions = [
-        "values outside the alphabets are not explored; IPv6, netmask notation, the AWS-calling helpers and nested evaluations are out of scope",
+        "values outside the alphabets are not explored; IPv6, netmask notation, the AWS-calling helpers are out of scope; nested evaluations one level deep only",
         "version comparison: the statement names '<'; the other five comparison operators are checked as the same numeric order (signature names the helper version_ops)",
         "marked_key: null for a missing key / a value without ':' or '@' is taken from the docstring and tests/test_c7nlib.py; a date that is not YYYY-MM-DD is UNSPEC",
         "history children are forked from a worker that has imported celpy and compiled the probe programs but has never entered a C7NContext or evaluated; "
@@ -906,8 +912,6 @@ def run(ctx):
         "chain shortcut: a history that starts after another one in the same process starts from a process whose context state was read as None, which is taken "
         "to be the same state as a fresh process (the context is the module global c7nlib.C7N and nothing else); guarded by the fresh-fork runs of every short "
         "history and by fresh python subprocesses for a sample",
-        "mode with-only (C7NContext(filter=F) around C7N_Interpreted_Runner.evaluate(activation) without filter=): the runner installs its own context with "
-        "filter=None, so what the functions see is not compared; clearing and outcomes are",
     ]
     # ---- part 2 first: history workers must come from a process that has never evaluated anything
     only = _only()
@@ -937,7 +941,6 @@ def run(ctx):
         _, point, st = k.split("|")
         points.setdefault(st, []).append(point)
         del ex[k]
-    saw = {k.split("|")[1]: ex.pop(k) for k in [k for k in ex if k.startswith("with_only_saw|")]}
     ctx.coverage_extra.update({
         "states": len(points),
         "state_values": {st: sorted(ps) for st, ps in sorted(points.items())},
@@ -949,7 +952,6 @@ def run(ctx):
         "fresh_fork_bound": fresh_bound(tier),
         "chain_forks": ex.pop("chain_forks", 0),
         "history_bound": {"events": len(HSYMBOLS), "length_per_install_mode": {m: mode_bound(m, tier) for m in MODES}},
-        "with_only_mode_functions_saw": saw,
     })
     if ctx.coverage_extra["fresh_fork_histories"] != nf:
         raise runner.HarnessError(f"ran {ctx.coverage_extra['fresh_fork_histories']} fresh-fork histories, expected {nf}")
